@@ -554,8 +554,7 @@ Print Assumptions C13_general_members.
 
 (** ** The same with premises on the ITEM LIST ONLY, for EVERY value.  [static_ok items] decides a class
     of item lists whose documented renderings the reader takes back whatever the value: every Numeric
-    item (supported kinds except %C %y %g, whose two-digit / century forms are not printed-and-read for
-    negative years) either fills the reader's width (zero padded two-digit fields, %j, %f; the
+    item (supported kinds except %C, and %y %g which are in the larger class [static_ok2] below) either fills the reader's width (zero padded two-digit fields, %j, %f; the
     one-digit fields) or is followed by text that cannot start with a digit -- a year always needs
     that; a white-space item is followed by text that cannot start with white space or by a space-padded
     number (%e %k %l ...: the white space takes the padding with it, [unambiguous_ws_b]), not by another
@@ -567,7 +566,7 @@ Print Assumptions C13_general_members.
     "unambiguous and sufficient": the C13_general_*_partial theorems remain for lists outside it. *)
 Theorem C13_class_accepted_for_every_value : forall sv on, sv_bounds sv ->
   (forall o, Spec.StrftimeDoc.sv_off sv = Some o -> o mod 60 = 0) -> forall items texts,
-  static_ok items = true -> Forall2 (doc_item sv on) items texts ->
+  static_ok2 items = true -> Forall2 (doc_item sv on) items texts ->
   exists ws, unambiguous_ws_b (combine items texts) [] = Some ws.
 Proof. exact static_accept_ws. Qed.
 Print Assumptions C13_class_accepted_for_every_value.
@@ -745,6 +744,52 @@ Example C13_class_dtz_members :
   dtz_static 9 NDT_T_FMT = false.
 Proof. exact dtz_static_members. Qed.
 Print Assumptions C13_class_dtz_members.
+
+(** ** the class with the two-digit years %y %g ([static_ok2]; [static_ok] is [static_ok2] without them).  They
+    are printed for (ISO) years >= 0 only ([two_digit_ok]) and, alone, are sufficient only in the pivot window:
+    the sufficiency premise is on the fields of the items FOR THE YEAR of the value. *)
+Theorem C13_class2_date_parse_from_str : forall fmt items,
+  items_of fmt = Val (Some items) ->
+  static_ok2 items = true -> forallb (it_kind_ok true false false) items = true ->
+  forall y o d, Proofs.C08Sweeps.repr y o d ->
+  two_digit_ok items y (fst (Spec.Gregorian.iso_of_dn (Spec.Gregorian.dn_of_yo y o))) ->
+  date_comb_b y (fst (Spec.Gregorian.iso_of_dn (Spec.Gregorian.dn_of_yo y o))) (shape_parsed (sfields items)) = true ->
+  exists text,
+    Model.Format.delayed_display (Model.Format.fa_of_date d) (Model.Strftime.sf_new fmt) = Model.Format.fok text /\
+    date_parse_from_str text fmt = pok d.
+Proof. exact class2_date_parse_from_str. Qed.
+Print Assumptions C13_class2_date_parse_from_str.
+
+Theorem C13_class2_ndt_parse_from_str : forall fmt items k,
+  items_of fmt = Val (Some items) ->
+  static_ok2 items = true -> forallb (it_kind_ok true true false) items = true -> static_time_ok items = true ->
+  frac_class_ok k items = true -> k = 3 \/ k = 6 \/ k = 9 ->
+  forall y o d t, Proofs.C08Sweeps.repr y o d -> valid_time t ->
+  two_digit_ok items y (fst (Spec.Gregorian.iso_of_dn (Spec.Gregorian.dn_of_yo y o))) ->
+  date_comb_b y (fst (Spec.Gregorian.iso_of_dn (Spec.Gregorian.dn_of_yo y o))) (shape_parsed (sfields items)) = true ->
+  exists text,
+    Model.Format.delayed_display (Model.Format.fa_of_ndt (Model.DateTime.mk_ndt d t)) (Model.Strftime.sf_new fmt) = Model.Format.fok text /\
+    ndt_parse_from_str text fmt = pok (Model.DateTime.mk_ndt d (static_time_value items k t)).
+Proof. exact class2_ndt_parse_from_str. Qed.
+Print Assumptions C13_class2_ndt_parse_from_str.
+
+(* %D and %x (both "%m/%d/%y"): every NaiveDate of the years 1970..=2069 comes back; outside the window the
+   fields are not sufficient (C13_two_digit_members) *)
+Theorem C13_date_D_roundtrip : forall y o d fmt, Proofs.C08Sweeps.repr y o d -> 1970 <= y <= 2069 ->
+  fmt = [37; 68] \/ fmt = [37; 120] ->
+  exists text,
+    Model.Format.delayed_display (Model.Format.fa_of_date d) (Model.Strftime.sf_new fmt) = Model.Format.fok text /\
+    date_parse_from_str text fmt = pok d.
+Proof. exact date_D_roundtrip. Qed.
+Print Assumptions C13_date_D_roundtrip.
+
+Example C13_two_digit_members :
+  items_of [37; 68] = Val (Some D_ITEMS) /\ items_of [37; 120] = Val (Some D_ITEMS) /\
+  static_ok2 D_ITEMS = true /\ static_ok D_ITEMS = false /\ forallb (it_kind_ok true false false) D_ITEMS = true /\
+  date_comb_b 1970 1970 (shape_parsed (sfields D_ITEMS)) = true /\ date_comb_b 2069 2069 (shape_parsed (sfields D_ITEMS)) = true /\
+  date_comb_b 1969 1969 (shape_parsed (sfields D_ITEMS)) = false /\ date_comb_b 2070 2070 (shape_parsed (sfields D_ITEMS)) = false.
+Proof. exact two_digit_members. Qed.
+Print Assumptions C13_two_digit_members.
 
 (* the entry points' lazily driven loops coincide with the loops over the yielded item list *)
 Theorem C13_parse_sf_loop_is_parse_items : forall items fuel p s st, yields st items -> (List.length items < fuel)%nat ->
